@@ -181,3 +181,28 @@ pub fn separate(req: &Value) -> Result<Value, String> {
     let (u, c) = first.unwrap_or((json!({}), json!({})));
     Ok(json!({"r": "ok", "unconflicted": u, "conflicted": c, "stable": stable}))
 }
+
+
+/// C06: sender power level of the incoming event when it is visited first (empty creator cache) and when another event of the
+/// room, which cites the create event, was visited before it
+pub fn creator_cache(req: &Value) -> Result<Value, String> {
+    let rules = rules(req)?;
+    let b = pdu(&req["incoming"])?;
+    let mut a = b.clone();
+    a.event_id = <&EventId>::try_from("$a:x").unwrap().to_owned();
+    a.auth_events = vec![<&EventId>::try_from("$c:x").unwrap().to_owned()];
+    let mut by_id: HashMap<String, Pdu> = HashMap::new();
+    for s in req["state"].as_array().cloned().unwrap_or_default() {
+        let mut p = pdu(&s)?;
+        let id = if p.kind == TimelineEventType::RoomCreate { "$c:x" } else if p.kind == TimelineEventType::RoomPowerLevels { "$o:x" } else { continue };
+        p.event_id = <&EventId>::try_from(id).unwrap().to_owned();
+        by_id.insert(id.to_owned(), p);
+    }
+    by_id.insert(b.event_id.as_str().to_owned(), b.clone());
+    by_id.insert("$a:x".to_owned(), a);
+    let fetch = |id: &EventId| by_id.get(id.as_str()).cloned();
+    let show = |r: &std::result::Result<js_int::Int, String>| match r { Ok(i) => json!(i64::from(*i)), Err(e) => json!(format!("err: {e}")) };
+    let first = ruma_state_res::verif_sender_power_levels(&[&*b.event_id], &rules.authorization, fetch);
+    let second = ruma_state_res::verif_sender_power_levels(&[<&EventId>::try_from("$a:x").unwrap(), &*b.event_id], &rules.authorization, fetch);
+    Ok(json!({"r": "ok", "empty_cache": show(&first[0]), "filled_cache": show(&second[1])}))
+}
